@@ -113,7 +113,9 @@ Lemma handle_packet_no_transport : forall s p, snd (handle_packet s p) <> HErr E
 Proof.
   intros s p. destruct p; cbn [handle_packet]; try (cbn [snd]; discriminate).
   - destruct q; [cbn [snd]; discriminate| |]; destruct pid; try (cbn [snd]; discriminate); try apply queue_ctl_checked_no_transport.
-    destruct (mem_id _ _); [apply queue_ctl_checked_no_transport|]. destruct (_ <=? _); apply queue_ctl_checked_no_transport.
+    match goal with |- context [queue_ctl_checked s ?a ?dl] =>
+      pose proof (queue_ctl_checked_no_transport s a dl) as Hq; destruct (queue_ctl_checked s a dl) as [s1 hr] end.
+    cbn [snd] in Hq |- *. exact Hq.
   - destruct (ack_packet _ _) as [o f]. destruct f; cbn [negb]; [|cbn [snd]; discriminate]. destruct (rc_success _); cbn [snd]; discriminate.
   - destruct (ack_packet _ _) as [o f]. destruct f.
     + destruct (negb _); [cbn [snd]; discriminate|].
